@@ -41,6 +41,15 @@ def cases(tier, seed):
                     out.append({"kind": "rank", "cls": f"rank:{'zero' if r == 0 else 'full' if r == min(m, n) else 'deficient'}",
                                 "m": m, "n": n, "r": r, "idx": idx, "seed": seed})
                     idx += 1
+    # extreme aspect ratios (m >= 4n and n >= 4m): an implementation may switch algorithm there
+    extreme = [(4, 1), (9, 1), (8, 2), (11, 2), (12, 3), (13, 3)] + ([] if tier == "quick" else [(16, 4), (20, 4), (21, 5), (30, 2), (40, 3)])
+    for (a, b) in extreme:
+        for (m, n) in ((a, b), (b, a)):
+            for r in range(0, min(m, n) + 1):
+                for k in range(2 if tier == "quick" else 6):
+                    out.append({"kind": "rank", "cls": f"rank:{'zero' if r == 0 else 'full' if r == min(m, n) else 'deficient'}",
+                                "m": m, "n": n, "r": r, "idx": idx, "seed": seed, "extreme_aspect": True})
+                    idx += 1
     for k in range(40 if tier == "quick" else 400):
         out.append({"kind": "intrank", "cls": "rank:integer_exact", "idx": idx, "seed": seed, "maxd": maxd})
         idx += 1
